@@ -18,11 +18,13 @@
 (* kind "undef": it is never judged against this module (the harness still *)
 (* compares the two implementations with each other) and never extended.   *)
 (*                                                                         *)
-(* Uses: P2 (MC_Kernel_*.cfg: TLC enumerates every reachable state up to   *)
-(* a depth and prints, per state, the history leading to it and the result *)
-(* of EVERY call of the theme's alphabet in that state; the harness runs   *)
-(* history+call on both systems), P3 (Trace_Kernel.tla: random long call   *)
-(* sequences recorded on both systems are validated call by call).         *)
+(* Uses: P1/P2 (MC_Kernel_<theme>_<tier>.cfg: TLC enumerates every distinct  *)
+(* state reachable by <= MaxH calls of a theme's alphabet, checks the      *)
+(* model's own invariants there and prints, per state, the history leading *)
+(* to it and the result of EVERY call of the alphabet in that state; the   *)
+(* harness runs history+call on both systems), P3 (Trace_Kernel.tla:       *)
+(* random long call sequences recorded on both systems are validated call  *)
+(* by call), and KernelScript.tla (the script catalogue) builds on Apply.   *)
 (***************************************************************************)
 EXTENDS Integers, Sequences, FiniteSets, TLC, Json, Bitwise
 
@@ -558,6 +560,7 @@ CallsMode(St) ==
   \cup { [op |-> "statat", path |-> p, follow |-> TRUE] : p \in { <<"n">>, <<"d", "n">>, <<"f">> } }
   \cup { [op |-> "fstat", fd |-> x] : x \in FdArgs(St, FALSE) }
   \cup { [op |-> "chdir", path |-> <<"d">>] }
+  \cup { [op |-> "close", fd |-> x] : x \in FdArgs(St, FALSE) }
 
 CallsPipe(St) ==
      { [op |-> "pipe"] }
@@ -660,5 +663,9 @@ TreeList == { [path |-> p, k |-> Tree0[p].k, data |-> Tree0[p].data, perm |-> Tr
 
 EmitState == PrintT(ToJson(IF h = <<>> THEN [h |-> h, fan |-> Fan, tree |-> TreeList, um |-> Init0.um]
                                        ELSE [h |-> h, fan |-> Fan]))
+
+\* the same, but only for the states within the bound (which the VIEW makes
+\* distinct): one line per distinct state reachable by <= MaxH calls
+EmitBounded == Len(h) > MaxH \/ EmitState
 
 =============================================================================
